@@ -329,3 +329,8 @@ Theorem C16_source_segment_length_test : forall ns : list Z,
   = existsb (fun n => gen_calc_sampled_segments_t1 n 0 0 0 0 0) ns.
 Proof. exact gen_segment_length_eq. Qed.
 Print Assumptions C16_source_segment_length_test.
+
+Theorem C16_source_init_tests : forall ff pf c tbl prog,
+  compile_with ff pf c tbl prog = compile_with_gen ff pf c tbl prog.
+Proof. exact gen_compile_with_eq. Qed.
+Print Assumptions C16_source_init_tests.
